@@ -175,11 +175,25 @@ Proof.
   destruct b; [exact C|]. apply IH; assumption.
 Qed.
 
+Lemma eval_items_sound : forall items st,
+  forallb (fun e => match etype e with Some _ => true | None => false end) items = true -> env_ok st ->
+  match eval_items items st with
+  | inl (_, st') => env_ok st'
+  | inr (x, _) => x <> ETypeMismatch
+  end.
+Proof.
+  induction items as [|e t IH]; intros st Hw Hst; cbn [eval_items]; [exact Hst|].
+  cbn [forallb] in Hw. apply andb_true_iff in Hw. destruct Hw as [He Ht].
+  destruct (etype e) as [q|] eqn:Et; [|discriminate].
+  pose proof (eval_sound e q st Et Hst) as S. destruct (eval e st) as [v st1|x px]; [|exact S].
+  destruct S as [_ S1]. specialize (IH st1 Ht S1). destruct (eval_items t st1) as [[vs e']|[x q0]]; exact IH.
+Qed.
+
 Theorem exec_sound : forall f s st, wt_stmt s = true -> env_ok (vars st) -> ok_outcome (exec f s st).
 Proof.
   induction f as [|f IH]; intros s st Hw Hst; [exact I|].
   pose proof (block_sound f IH) as B.
-  destruct s as [p n e|p args|p c thn elifs els|p c body|p top until c body|p v lo hi step body|p e cases els].
+  destruct s as [p n e|p args|p c thn elifs els|p c body|p top until c body|p v lo hi step body|p e cases els|p items|p targets].
   - (* assignment *) apply (assignment_sound num_text is_negative f p n e st Hw Hst).
   - (* PRINT *)
     cbn [Sem.exec]. cbn [wt_stmt] in Hw.
@@ -351,6 +365,12 @@ Proof.
           apply B; [exact Hb|exact A].
         + apply IHt; [exact A|exact Ht]. }
     apply G; [exact H0|exact Hcases].
+  - (* DATA *)
+    cbn [Sem.exec]. cbn [wt_stmt] in Hw.
+    pose proof (eval_items_sound items (vars st) Hw Hst) as P.
+    destruct (eval_items items (vars st)) as [[vs e']|[x q]]; cbn; exact P.
+  - (* READ is outside the statement *)
+    discriminate Hw.
 Qed.
 
 (** whole programs *)
